@@ -5,6 +5,7 @@
 # /repo HEAD under /tmp is used instead, so that several sweeps (and other checks) can run at the same time.
 # Prints per check: CAUGHT / MISSED. Evidence and replays of these runs go to a temporary VERIF_ROOT.
 set -u
+ROOT="$(cd "$(dirname "$0")/.." && pwd)"
 P="$1"; shift
 [[ "$P" != revert:* ]] && P="$(realpath "$P")"
 REPO=/repo
@@ -19,7 +20,7 @@ cleanup() {
   rm -rf "$VERIF_ROOT"
   if [ "$REPO" != /repo ]; then
     SFX="$(echo "$REPO" | md5sum | cut -c1-8)"
-    rm -f /verif/.build/*-$SFX.test /verif/.build/alt-$SFX.* /verif/.build/.lock*-$SFX
+    rm -f $ROOT/.build/*-$SFX.test $ROOT/.build/alt-$SFX.* $ROOT/.build/.lock*-$SFX
   fi
 }
 export VERIF_ROOT=/tmp/verif-mutant-$$
@@ -30,9 +31,9 @@ else
   git apply "$P" || { echo "apply failed"; exit 2; }
 fi
 mkdir -p $VERIF_ROOT
-cp /verif/known_findings.json $VERIF_ROOT/
+cp $ROOT/known_findings.json $VERIF_ROOT/
 for ID in "$@"; do
-  OUT=$(cd /verif && VERIF_REPO=$REPO VERIF_ROOT_OVERRIDE=1 ./run.sh "$ID" ${TIER:-quick} ${RACE:-} 2>&1)
+  OUT=$(cd $ROOT && VERIF_REPO=$REPO VERIF_ROOT_OVERRIDE=1 ./run.sh "$ID" ${TIER:-quick} ${RACE:-} 2>&1)
   rc=$?
   if echo "$OUT" | grep -q "^VIOLATION property=$ID"; then
     echo "CAUGHT $ID by $(basename $(dirname $P))/$(basename $P): $(echo "$OUT" | grep -A2 '^VIOLATION' | sed -n '2,3p' | tr '\n' ' ' | cut -c1-300)"
